@@ -124,6 +124,13 @@ Qed.
 Lemma axis_stored_names data : forall axs axes', Forall2 (axis_stored data) axs axes' -> map ax_name axes' = map ax_name axs.
 Proof. induction 1 as [|ax ax' l l' [Hn _] _ IH]; [reflexivity|]. cbn. rewrite Hn, IH. reflexivity. Qed.
 
+(* numpy never discovers an 8-bit dtype for Python scalars *)
+Lemma col_dt_not8 col d : col_dt col = Some d -> is_8bit d = false.
+Proof. unfold col_dt. destruct (filled col) as [|v r]; [intro H; inversion H; reflexivity|].
+  destruct (same_dt (scalar_dt v) v && forallb (same_dt (scalar_dt v)) r && negb (dtype_eqb (scalar_dt v) DObj)); [|discriminate].
+  intro H. inversion H. destruct v; cbn [scalar_dt]; try reflexivity.
+  repeat match goal with |- context [if ?c then _ else _] => destruct c end; reflexivity. Qed.
+
 Lemma dicts_sg_dom cvf d g mdc axes mdtok post mg cg pos :
   written_ok cvf d g mdc axes mdtok post mg cg -> args_dom g mdc axes -> sg_dicts_dom g mdc axes pos ->
   exists names dt, md_axis_names (g_md mg) = names /\
@@ -167,6 +174,7 @@ Proof.
     rewrite (Hdt ax Hin) in Hdt'. inversion Hdt'; subst dt'.
     eexists. split; [apply alookup_in_nodup; [rewrite Hnk; apply keys_of_nodup | exact Hinp]|].
     cbn [a_shape a_dt]. unfold ndata. rewrite !map_length. split; reflexivity.
+  - destruct axs as [|ax0 r0]; [contradiction|]. exact (col_dt_not8 _ _ (Hdt ax0 (or_introl eq_refl))).
 Qed.
 
 (* sg_dom does not depend on position_attr beyond its freshness *)
@@ -225,7 +233,7 @@ Proof.
     destruct (dicts_sg_dom _ _ _ _ _ _ _ _ _ pos Hok Hargs Hsd) as [names [dt [Hn Hd]]]. exists dt. rewrite Hn. exact Hd.
   - (* spatial-graph *)
     destruct Hs as [ids [es [P Hd]]].
-    destruct (sg_write_read sg names ids es P mdtok axtok Hd) as [post [md' [Hw [Hval [Hrd [Hdir [Hdom [cg [Hcg Hcs]]]]]]]]].
+    destruct (sg_write_read KObj sg names ids es P mdtok axtok Hd) as [post [md' [Hw [Hval [Hrd [Hdir [Hdom [cg [Hcg Hcs]]]]]]]]].
     cbv zeta in *.
     set (mg := mkmg md' (sc_nodes sg) (sc_edges sg) (adel (sc_pos sg) (map mkp (sc_nattrs sg)) ++ axis_cols P names) (map mkp (sc_eattrs sg))) in *.
     exists cg. split.
